@@ -1,4 +1,5 @@
 From Coq Require Import ZArith Extraction ExtrOcamlBasic.
-From CyVerif Require Import Lib.CInt Model.M_ExcSpec.
+From CyVerif Require Import Lib.CInt Model.M_ExcSpec Model.M_ExcTest.
 Extraction "../ocaml/gen/m_excspec.ml" ex_keep normalise observe_via observe documented exc_compatible
-  wf_specb val_okb c_test propagates cpp_map.
+  wf_specb val_okb c_test propagates cpp_map
+  ceval eq_test emitted stored fires site_spec fn_spec observe_value float_test float_stored.
